@@ -207,13 +207,18 @@ Definition scmp_reply_type (t : Z) : option Z :=
   else None.
 
 (* the forwarded packet: same header and L4; the end-to-end extension gets the
-   receive timestamp option when the kernel delivered one ([oob] non-empty) *)
+   receive timestamp option when the kernel delivered one ([oob] non-empty).
+   A packet whose first extension is not the end-to-end extension goes out
+   without its extensions: behind a fresh end-to-end extension holding the
+   timestamp option, or - no timestamp - as SCION/UDP (fix: the repair of the
+   forwarding branch; before it NextHdr kept naming the hop-by-hop extension
+   although no extension was written) *)
 Definition forward_tx (q : rx) (oob : bytes) : tx :=
   let h := rx_hdr q in
   let ts := mkOpt OPT_TIMESTAMP oob in
   let had_e2e := h_next h =? E2E_CLASS in
   let has_oob := negb (zlen oob =? 0) in
-  let next := if has_oob then E2E_CLASS else h_next h in
+  let next := if has_oob || had_e2e then E2E_CLASS else L4_UDP in
   let opts := (if had_e2e then rx_opts q else []) ++ (if has_oob then [ts] else []) in
   mkTx (set_next h next) (if next =? E2E_CLASS then Some opts else None) (rx_l4 q).
 
